@@ -1,5 +1,7 @@
 import HgVerif.Lemmas.Dispatch
 import HgVerif.Lemmas.DispatchRank
+import HgVerif.Lemmas.DispatchNamed
+import HgVerif.Model.DispatchStruct
 /-!
 # C19 — operator resolution picks the unique most specific match, whatever the registration order
 
@@ -21,6 +23,22 @@ Floor
   `inst_subst_deref` / `inst_subst_exact`: substituting that map into the pattern gives the supplied
                               schema up to REF transparency (`derefAll`) — exactly, unless the resolved
                               type contains one of the code's two wildcards (`SIGNAL`, size-0 `TSL`).
+* bundles are NOMINAL (a bundle type = optional name + field list; `Model/Dispatch.lean`): `inst` demands of a
+  whole-time-series variable `~T` that it is bound to EXACTLY the schema at its position.
+  `var_bound_to_position_type` / `repeated_var_same_type` / `winner_var_one_type`: after a successful match the ONE
+                              map binds `~T` to the (REF-stripped) argument sub-schema at EVERY position of `~T`
+                              (`varSites`: top level, under TSL / TSD / REF / bundle fields, across parameters), so all
+                              those sub-schemas are the same type - for bundles the same NAME and the same fields -
+                              and an output `~T` is that type.
+  `structural_rebinding_unsound`: the variant matcher of `Model/DispatchStruct.lean` (re-binding compared with
+                              `time_series_schema_equivalent`) does NOT have this property: `f(~T,~T)` accepts
+                              `(TSB<A>[x,y], TSB<B>[x,y])` with `T := TSB<A>[x,y]` (kernel-checked witness), beats the
+                              fallback `f(~X,~Y)`, turns a no-match into a match, and its output follows argument order.
+  `schema_var_rebinding_is_structural` [C19-schemavar]: the code itself compares a re-used `TSB[~S]` SCHEMA variable
+                              structurally, so for it only "same field list" holds (`inst`), not "same type" (`instX`);
+                              `match_complete` is stated for the strict reading `instX` and
+                              `match_complete_fails_for_inst` shows it cannot be had for `inst`; the readings coincide
+                              without a schema variable (`inst_eq_instX_of_noSchemaVar`).
 * `tsb_pattern_requires_same_fields`: a field-listing bundle pattern only accepts a bundle with exactly its
                               field names, in its order (so the same count) — no trailing extra field.
 * `output_is_substitution`  : the reported output schema is the substitution of the winner's bindings
@@ -81,14 +99,25 @@ theorem inst_subst_deref {p : TP} {m : RMap} {c d : CT} (hi : inst p m c = true)
     wildEq (derefAll d) (derefAll c) = true :=
   inst_subst_wild p m c d hi hs
 
-/-- … and exactly the same schema when the resolved type has no `SIGNAL` and no size-0 `TSL` -/
+/-- … and the same schema - same structure, same field names and field types all the way down - when the resolved
+    type has no `SIGNAL` and no size-0 `TSL` -/
 theorem inst_subst_exact {p : TP} {m : RMap} {c d : CT} (hi : inst p m c = true) (hs : subst p m = some d)
-    (hn : noWild (derefAll d) = true) : derefAll d = derefAll c :=
+    (hn : noWild (derefAll d) = true) : equiv (derefAll d) (derefAll c) = true :=
   inst_subst_noWild hi hs hn
 
-/-- **match_complete.** Whatever bindings `mf ⊇ m` make the pattern accept the schema, the matcher
-    succeeds from `m` and returns bindings below `mf`: it finds the *least* extension. -/
-theorem match_complete {p : TP} {c : CT} {m mf : RMap} (h : MapLe m mf) (hi : inst p mf c = true) :
+/-- … and literally the same schema when, in addition, neither side mentions a named bundle (bundle names are the
+    one thing `time_series_schema_equivalent` does not compare: an un-named pattern `TSB[a:..]` accepts the named
+    `TSB<A>[a:..]` and resolves to the un-named bundle, a concrete leaf `=TSB<A>[..]` accepts `TSB<B>[..]`) -/
+theorem inst_subst_exact_nameless {p : TP} {m : RMap} {c d : CT} (hi : inst p m c = true)
+    (hs : subst p m = some d) (hn : noWild (derefAll d) = true) (hd : nameless (derefAll d) = true)
+    (hc : nameless (derefAll c) = true) : derefAll d = derefAll c :=
+  equiv_eq_of_nameless _ _ hd hc (inst_subst_exact hi hs hn)
+
+/-- **match_complete.** Whatever bindings `mf ⊇ m` make the pattern accept the schema - every variable, a
+    `TSB[~S]` schema variable included, bound to exactly the type at its position (`instX`) - the matcher succeeds
+    from `m` and returns bindings below `mf`: it finds the *least* extension.  (For the code's weaker reading `inst`
+    of a re-used `TSB[~S]` this is false: see `schema_var_order_dependent` below.) -/
+theorem match_complete {p : TP} {c : CT} {m mf : RMap} (h : MapLe m mf) (hi : instX p mf c = true) :
     ∃ m', inMatch p c m = some m' ∧ MapLe m' mf :=
   inMatch_complete p c m mf h hi
 
@@ -125,16 +154,23 @@ theorem inMatchFields_same_names : ∀ (fs : PFields) (cfs : CFields) (m m' : RM
 /-- **tsb_pattern_requires_same_fields.**  If the field-listing bundle pattern `TSB[f₁:p₁, …, f_k:p_k]` accepts an
     argument schema, then (behind any `REF`s) that schema is a bundle with the SAME field names in the same order —
     hence the same number of fields: no trailing extra field, none missing, none re-ordered, none re-named — and each
-    field's schema is accepted by the corresponding child pattern under the returned bindings (`instFields`). -/
-theorem tsb_pattern_requires_same_fields {fs : PFields} {c : CT} {m m' : RMap}
-    (h : inMatch (.tsb fs) c m = some m') :
-    ∃ cfs, stripRefs c = .tsb cfs ∧ pFieldNames fs = cFieldNames cfs ∧
+    field's schema is accepted by the corresponding child pattern under the returned bindings (`instFields`); a NAMED
+    pattern `TSB<n>[…]` moreover only accepts the named bundle `n` (an un-named pattern accepts every name). -/
+theorem tsb_pattern_requires_same_fields {pn : Option Name} {fs : PFields} {c : CT} {m m' : RMap}
+    (h : inMatch (.tsb pn fs) c m = some m') :
+    ∃ cn cfs, stripRefs c = .tsb cn cfs ∧ (∀ n, pn = some n → cn = some n) ∧ pFieldNames fs = cFieldNames cfs ∧
       (pFieldNames fs).length = (cFieldNames cfs).length ∧ instFields fs m' cfs = true := by
   simp only [inMatch] at h
   split at h
-  · rename_i cfs hc
-    have hn := inMatchFields_same_names fs cfs m m' h
-    exact ⟨cfs, hc, hn, by rw [hn], (inMatchFields_sound fs cfs m m' h).2⟩
+  · rename_i cn cfs hc
+    split at h
+    · rename_i hnm
+      have hn := inMatchFields_same_names fs cfs m m' h
+      refine ⟨cn, cfs, hc, ?_, hn, by rw [hn], (inMatchFields_sound fs cfs m m' h).2⟩
+      intro n hpn
+      subst hpn
+      simpa [nameOk] using hnm
+    · cases h
   · cases h
 
 /-! ## survivors -/
@@ -182,7 +218,7 @@ theorem survivor_sound {os : List Overload} {args : List Arg} {s : Survivor} (h 
     candidate loop with the least such bindings `m' ⊆ mf`; it survives exactly when its output can
     be produced from them -/
 theorem candidate_complete {o : Overload} {args : List Arg} {mf : RMap}
-    (hi : instArgs o.params args mf = true) :
+    (hi : instArgsX o.params args mf = true) :
     ∃ m' adj, MapLe m' mf ∧ instArgs o.params args m' = true ∧
       (outResolvable o.out m' = true → survivorOf args o = some ⟨o, m', operatorRank o.params + adj⟩) ∧
       (outResolvable o.out m' = false → survivorOf args o = none) := by
@@ -202,7 +238,7 @@ theorem candidate_complete {o : Overload} {args : List Arg} {mf : RMap}
     every candidate either accepts the arguments under no bindings at all, or its output cannot be
     produced from the least bindings under which it does -/
 theorem noMatch_no_candidate {os : List Overload} {args : List Arg} (h : resolveCall os args = .noMatch)
-    {o : Overload} (ho : o ∈ os) {mf : RMap} (hi : instArgs o.params args mf = true) :
+    {o : Overload} (ho : o ∈ os) {mf : RMap} (hi : instArgsX o.params args mf = true) :
     ∃ m', MapLe m' mf ∧ instArgs o.params args m' = true ∧ outResolvable o.out m' = false := by
   obtain ⟨m', adj, hle, hi', hyes, _⟩ := candidate_complete (o := o) hi
   refine ⟨m', hle, hi', ?_⟩
@@ -593,10 +629,178 @@ def RankRespectsInstantiation : Prop :=
     whole-time-series variables at any depth, and for any structure below nesting depth 6. -/
 theorem rank_respects_instantiation_refuted : ¬ RankRespectsInstantiation := by
   intro h
-  have := h (fun n => if n = 0 then some (.tsb (.cons 7 (.var 1 []) (.cons 8 (.var 2 []) .nil))) else none)
+  have := h (fun n => if n = 0 then some (.tsb none (.cons 7 (.var 1 []) (.cons 8 (.var 2 []) .nil))) else none)
     [.input (.var 0 [])]
   revert this
   decide
+
+/-! ## a repeated variable is bound to ONE type: for bundles the same name and the same fields -/
+
+/-- **var_bound_to_position_type.**  After a successful match of ONE pattern, the returned map binds the variable
+    `~n` to exactly the (REF-stripped) argument sub-schema at each of its positions in the pattern. -/
+theorem var_bound_to_position_type {p : TP} {c : CT} {m m' : RMap} (h : inMatch p c m = some m') {n : Name}
+    {d : CT} (hd : d ∈ varSites n p c) : m'.findTs n = some d :=
+  inst_varSites p c (match_sound h).2.2 d hd
+
+/-- **repeated_var_same_type.**  After the argument loop succeeded, the ONE final map binds the whole-time-series
+    variable `~n` to the argument sub-schema at EVERY position where `~n` occurs (in any parameter, at top level or
+    under `TSL` / `TSD` / `REF` / bundle fields).  Hence all those sub-schemas are one and the same type; when they
+    are bundles they have the same NAME (or are all un-named) and the same field list. -/
+theorem repeated_var_same_type {ps : List Param} {as : List Arg} {m m' : RMap} {adj adj' : Nat}
+    (h : matchArgs ps as m adj = (some m', adj')) (n : Name) :
+    (∀ d ∈ varSitesArgs n ps as, m'.findTs n = some d) ∧
+    (∀ d ∈ varSitesArgs n ps as, ∀ d' ∈ varSitesArgs n ps as, d = d') ∧
+    (∀ nm fs nm' fs', CT.tsb nm fs ∈ varSitesArgs n ps as → CT.tsb nm' fs' ∈ varSitesArgs n ps as →
+      nm = nm' ∧ fs = fs') := by
+  have hb : ∀ d ∈ varSitesArgs n ps as, m'.findTs n = some d :=
+    instArgs_varSites ps as (matchArgs_sound h).2
+  have heq : ∀ d ∈ varSitesArgs n ps as, ∀ d' ∈ varSitesArgs n ps as, d = d' := by
+    intro d hd d' hd'
+    have h1 := hb d hd
+    rw [hb d' hd'] at h1
+    exact (Option.some.inj h1).symm
+  refine ⟨hb, heq, ?_⟩
+  intro nm fs nm' fs' h1 h2
+  have := heq _ h1 _ h2
+  simp only [CT.tsb.injEq] at this
+  exact this
+
+/-- **winner_var_one_type.**  The selected candidate's bindings give every whole-time-series variable the type found
+    at every one of its positions in the supplied arguments, and an output declared as `~n` IS that type. -/
+theorem winner_var_one_type {os : List Overload} {args : List Arg} {s : Survivor} {o : Option CT}
+    (h : resolveCall os args = .winner s o) (n : Name) :
+    (∀ d ∈ varSitesArgs n s.ov.params args, s.map.findTs n = some d) ∧
+    (∀ cs, s.ov.out = some (.var n cs) → ∀ d ∈ varSitesArgs n s.ov.params args, o = some d) := by
+  have ho := output_is_substitution h
+  have hb := instArgs_varSites (n := n) s.ov.params args ho.1
+  refine ⟨hb, ?_⟩
+  intro cs hout d hd
+  obtain ⟨d0, hd0, ho0⟩ := ho.2.1 _ hout
+  simp only [subst] at hd0
+  rw [hb d hd] at hd0
+  rw [ho0, ← Option.some.inj hd0]
+
+/-- without a `TSB[~S]` schema variable the code's reading and the strict reading of a pattern are the same -/
+theorem inst_eq_instX_of_noSchemaVar {p : TP} {m : RMap} {c : CT} (h : noSchemaVar p = true) :
+    inst p m c = instX p m c :=
+  instG_flag_irrelevant p c h
+
+/-- the strict reading is the stronger one -/
+theorem instX_implies_inst {p : TP} {m : RMap} {c : CT} (h : instX p m c = true) : inst p m c = true :=
+  instX_inst p c h
+
+/-! ### the variant with a structural comparison on re-binding does not have the property -/
+
+-- names: T = 0, X = 1, Y = 2; fields x = 7, y = 8; bundle names A = 100, B = 101
+private def xyFields : CFields := .cons 7 (.ts 1) (.cons 8 (.ts 2) .nil)
+private def bA : CT := .tsb (some 100) xyFields
+private def bB : CT := .tsb (some 101) xyFields
+private def bU : CT := .tsb none xyFields
+private def ovSame : Overload := { label := 40, params := [.input (.var 0 []), .input (.var 0 [])], out := some (.var 0 []) }
+private def ovAnyTwo : Overload := { label := 41, params := [.input (.var 1 []), .input (.var 2 [])], out := some (.var 1 []) }
+private def ovPairOnly : Overload :=
+  { label := 42, params := [.input (.var 0 []), .input (.var 0 [])], out := some (.tsl (.var 0 []) (.fixed 2)) }
+
+/-- "the variant matcher binds a variable to the type at each of its positions" (the statement that
+    `repeated_var_same_type` proves for the code's matcher) -/
+def StructuralRebindingSound : Prop :=
+  ∀ (ps : List Param) (as : List Arg) (m' : RMap) (adj' : Nat) (n : Name),
+    matchArgsS ps as RMap.empty 0 = (some m', adj') → ∀ d ∈ varSitesArgs n ps as, m'.findTs n = some d
+
+/-- **structural_rebinding_unsound.**  With `time_series_schema_equivalent` instead of identity in the "variable already
+    bound" branch, `f(~T,~T)` accepts `(TSB<A>[x:TS[int],y:TS[float]], TSB<B>[x:TS[int],y:TS[float]])`: the variable
+    stays bound to `TSB<A>[..]` although its second position holds the different type `TSB<B>[..]`. -/
+theorem structural_rebinding_unsound : ¬ StructuralRebindingSound := by
+  intro h
+  have := h [.input (.var 0 []), .input (.var 0 [])] [.ts bA, .ts bB] { ts := [(0, bA)] } 0 0 (by decide) bB (by decide)
+  revert this
+  decide
+
+/-- the witness, spelled out: the code's matcher rejects, the variant accepts; same for a named against the un-named
+    bundle of the same fields, and under `TSL` / `TSD` / `REF` -/
+example : matchArgs [.input (.var 0 []), .input (.var 0 [])] [.ts bA, .ts bB] RMap.empty 0 = (none, 0) ∧
+    matchArgsS [.input (.var 0 []), .input (.var 0 [])] [.ts bA, .ts bB] RMap.empty 0 = (some { ts := [(0, bA)] }, 0) ∧
+    varSitesArgs 0 [.input (.var 0 []), .input (.var 0 [])] [.ts bA, .ts bB] = [bA, bB] ∧ bA ≠ bB ∧
+    equiv bA bB = true ∧ equiv bA bU = true ∧
+    matchArgs [.input (.var 0 []), .input (.var 0 [])] [.ts bU, .ts bA] RMap.empty 0 = (none, 0) ∧
+    matchArgsS [.input (.var 0 []), .input (.var 0 [])] [.ts bU, .ts bA] RMap.empty 0 = (some { ts := [(0, bU)] }, 0) ∧
+    matchArgs [.input (.tsd (.var 3 []) (.var 0 [])), .input (.var 0 [])] [.ts (.tsd 1 bA), .ts (.ref bB)] RMap.empty 0
+      = (none, 0) ∧
+    matchArgsS [.input (.tsd (.var 3 []) (.var 0 [])), .input (.var 0 [])] [.ts (.tsd 1 bA), .ts (.ref bB)] RMap.empty 0
+      = (some { ts := [(0, bA)], sc := [(3, 1)] }, 0) ∧
+    matchArgs [.input (.tsl (.var 0 []) (.var 5 [])), .input (.tsl (.var 0 []) (.var 5 []))]
+      [.ts (.tsl bA 2), .ts (.tsl bB 2)] RMap.empty 0 = (none, 0) ∧
+    matchArgsS [.input (.tsl (.var 0 []) (.var 5 [])), .input (.tsl (.var 0 []) (.var 5 []))]
+      [.ts (.tsl bA 2), .ts (.tsl bB 2)] RMap.empty 0 = (some { ts := [(0, bA)], sz := [(5, 2)] }, 0) := by decide
+
+/-- what it does to resolution: with the code's matcher `(A, B)` goes to the fallback `any(~X,~Y)` in both registration
+    orders and `pair(~T,~T)` alone is a resolution error; with the variant the repeated-variable candidate (rank 10000
+    against 20000) wins in both orders, the no-match becomes a match, and the output follows the argument order -/
+example : resolveCall [ovSame, ovAnyTwo] [.ts bA, .ts bB]
+      = .winner ⟨ovAnyTwo, { ts := [(2, bB), (1, bA)] }, 20000⟩ (some bA) ∧
+    resolveCall [ovAnyTwo, ovSame] [.ts bA, .ts bB]
+      = .winner ⟨ovAnyTwo, { ts := [(2, bB), (1, bA)] }, 20000⟩ (some bA) ∧
+    resolveCall [ovPairOnly] [.ts bA, .ts bB] = .noMatch ∧
+    resolveCallS [ovSame, ovAnyTwo] [.ts bA, .ts bB] = .winner ⟨ovSame, { ts := [(0, bA)] }, 10000⟩ (some bA) ∧
+    resolveCallS [ovAnyTwo, ovSame] [.ts bA, .ts bB] = .winner ⟨ovSame, { ts := [(0, bA)] }, 10000⟩ (some bA) ∧
+    resolveCallS [ovPairOnly] [.ts bA, .ts bB] = .winner ⟨ovPairOnly, { ts := [(0, bA)] }, 10000⟩ (some (.tsl bA 2)) ∧
+    resolveCallS [ovPairOnly] [.ts bB, .ts bA] = .winner ⟨ovPairOnly, { ts := [(0, bB)] }, 10000⟩ (some (.tsl bB 2)) ∧
+    resolveCall [ovSame, ovAnyTwo] [.ts bA, .ts (.ref bA)] = .winner ⟨ovSame, { ts := [(0, bA)] }, 10000⟩ (some bA) := by
+  decide
+
+/-- `repeated_var_same_type` is not vacuous: `at(TSD[~K,~V], ~V)` on `(TSD[int,TSB<B>[..]], REF[TSB<B>[..]])` -/
+example : matchArgs [.input (.tsd (.var 3 []) (.var 0 [])), .input (.var 0 [])] [.ts (.tsd 1 bB), .ts (.ref bB)] RMap.empty 0
+      = (some { ts := [(0, bB)], sc := [(3, 1)] }, 0) ∧
+    varSitesArgs 0 [.input (.tsd (.var 3 []) (.var 0 [])), .input (.var 0 [])] [.ts (.tsd 1 bB), .ts (.ref bB)] = [bB, bB] := by
+  decide
+
+/-! ### what the code does NOT guarantee: a re-used `TSB[~S]` schema variable -/
+
+theorem mapLe_empty (mf : RMap) : MapLe RMap.empty mf :=
+  ⟨fun _ _ h => by simp [RMap.empty, RMap.findTs, lookup] at h,
+   fun _ _ h => by simp [RMap.empty, RMap.findSc, lookup] at h,
+   fun _ _ h => by simp [RMap.empty, RMap.findSz, lookup] at h⟩
+
+/-- **schema_var_rebinding_is_structural** ([C19-schemavar], a fact about the unchanged code).  `f(TSB[~S], TSB[~S])`
+    accepts `(TSB<A>[x,y], TSB<B>[x,y])`: a re-used schema variable is compared with `time_series_schema_equivalent`
+    (type_pattern.cpp l.283-287 / l.366-370).  `S` stays bound to `TSB<A>[..]`; the code's reading `inst` holds (same
+    field list), and NO map satisfies the strict reading (one type at both positions). -/
+theorem schema_var_rebinding_is_structural :
+    matchArgs [.input (.tsbVar 0), .input (.tsbVar 0)] [.ts bA, .ts bB] RMap.empty 0 = (some { ts := [(0, bA)] }, 0) ∧
+    instArgs [.input (.tsbVar 0), .input (.tsbVar 0)] [.ts bA, .ts bB] { ts := [(0, bA)] } = true ∧
+    bA ≠ bB ∧ ¬ ∃ m, instArgsX [.input (.tsbVar 0), .input (.tsbVar 0)] [.ts bA, .ts bB] m = true := by
+  refine ⟨by decide, by decide, by decide, ?_⟩
+  rintro ⟨m, hm⟩
+  simp only [instArgsX, instArgsG, instParamG, instG, stripRefs, bA, bB, svOk, if_true, Bool.and_eq_true,
+    Bool.and_true] at hm
+  obtain ⟨h1, h2⟩ := hm
+  cases hf : m.findTs 0 with
+  | none => simp [hf] at h1
+  | some b =>
+    simp only [hf, decide_eq_true_eq] at h1 h2
+    rw [h1] at h2
+    revert h2
+    decide
+
+/-- **match_complete_fails_for_inst.**  `match_complete` cannot be stated for the code's reading `inst`: under
+    `mf = {S := TSB<A>[..]}` the pattern `TSB[~S]` accepts `TSB<B>[..]` (same fields), but from the empty map the matcher
+    binds `S := TSB<B>[..]`, which is not below `mf`. -/
+theorem match_complete_fails_for_inst :
+    ¬ ∀ (p : TP) (c : CT) (m mf : RMap), MapLe m mf → inst p mf c = true →
+        ∃ m', inMatch p c m = some m' ∧ MapLe m' mf := by
+  intro h
+  obtain ⟨m', hm, hle⟩ := h (.tsbVar 0) bB RMap.empty { ts := [(0, bA)] } (mapLe_empty _) (by decide)
+  have hc : inMatch (.tsbVar 0) bB RMap.empty = some { ts := [(0, bB)] } := by decide
+  rw [hc] at hm
+  cases hm
+  have := hle.ts 0 bB (by decide)
+  revert this
+  decide
+
+/-- a consequence: with a schema variable and a whole-time-series variable of the same name, whether the SAME two
+    positions are accepted depends on which one the matcher reaches first -/
+example : matchArgs [.input (.var 0 []), .input (.tsbVar 0)] [.ts bA, .ts bB] RMap.empty 0 = (some { ts := [(0, bA)] }, 0) ∧
+    matchArgs [.input (.tsbVar 0), .input (.var 0 [])] [.ts bB, .ts bA] RMap.empty 0 = (none, 0) := by decide
 
 /-! ## non-vacuity: concrete families that exercise the hypotheses -/
 
@@ -675,19 +879,19 @@ example : operatorRank ovDepthB.params = 5102 ∧
 /-- `tsb_pattern_requires_same_fields` is not vacuous, and the count test is what rejects a wider bundle: the pattern
     `TSB[a:~T, b:~T]` (fields 7, 8) accepts `REF[TSB[a:TS[int], b:TS[int]]]`, and rejects the bundle that carries a
     trailing field `c` (9), the one that lacks `b`, the re-ordered one and the one whose second field is named `c` -/
-private def pairPat : TP := .tsb (.cons 7 (.var 0 []) (.cons 8 (.var 0 []) .nil))
-example : inMatch pairPat (.ref (.tsb (.cons 7 (.ts 1) (.cons 8 (.ts 1) .nil)))) RMap.empty = some { ts := [(0, .ts 1)] } ∧
-    inMatch pairPat (.tsb (.cons 7 (.ts 1) (.cons 8 (.ts 1) (.cons 9 (.ts 3) .nil)))) RMap.empty = none ∧
-    inMatch pairPat (.tsb (.cons 7 (.ts 1) .nil)) RMap.empty = none ∧
-    inMatch pairPat (.tsb (.cons 8 (.ts 1) (.cons 7 (.ts 1) .nil))) RMap.empty = none ∧
-    inMatch pairPat (.tsb (.cons 7 (.ts 1) (.cons 9 (.ts 1) .nil))) RMap.empty = none ∧
-    inMatch (.tsl pairPat (.fixed 0)) (.tsl (.tsb (.cons 7 (.ts 1) (.cons 8 (.ts 1) (.cons 9 (.ts 3) .nil)))) 2) RMap.empty
+private def pairPat : TP := .tsb none (.cons 7 (.var 0 []) (.cons 8 (.var 0 []) .nil))
+example : inMatch pairPat (.ref (.tsb none (.cons 7 (.ts 1) (.cons 8 (.ts 1) .nil)))) RMap.empty = some { ts := [(0, .ts 1)] } ∧
+    inMatch pairPat (.tsb none (.cons 7 (.ts 1) (.cons 8 (.ts 1) (.cons 9 (.ts 3) .nil)))) RMap.empty = none ∧
+    inMatch pairPat (.tsb none (.cons 7 (.ts 1) .nil)) RMap.empty = none ∧
+    inMatch pairPat (.tsb none (.cons 8 (.ts 1) (.cons 7 (.ts 1) .nil))) RMap.empty = none ∧
+    inMatch pairPat (.tsb none (.cons 7 (.ts 1) (.cons 9 (.ts 1) .nil))) RMap.empty = none ∧
+    inMatch (.tsl pairPat (.fixed 0)) (.tsl (.tsb none (.cons 7 (.ts 1) (.cons 8 (.ts 1) (.cons 9 (.ts 3) .nil)))) 2) RMap.empty
       = none := by decide
 /-- so a call with the wider bundle falls through to the `~X` fallback, in both registration orders, and with the
     pair pattern alone it is a resolution error -/
 private def ovPair : Overload := { label := 30, params := [.input pairPat], out := some (.var 0 []) }
 private def ovAny : Overload := { label := 31, params := [.input (.var 4 [])], out := some (.var 4 []) }
-private def wideBundle : CT := .tsb (.cons 7 (.ts 1) (.cons 8 (.ts 1) (.cons 9 (.ts 3) .nil)))
+private def wideBundle : CT := .tsb none (.cons 7 (.ts 1) (.cons 8 (.ts 1) (.cons 9 (.ts 3) .nil)))
 example : resolveCall [ovPair, ovAny] [.ts wideBundle] = .winner ⟨ovAny, { ts := [(4, wideBundle)] }, 10000⟩ (some wideBundle) ∧
     resolveCall [ovAny, ovPair] [.ts wideBundle] = .winner ⟨ovAny, { ts := [(4, wideBundle)] }, 10000⟩ (some wideBundle) ∧
     resolveCall [ovPair] [.ts wideBundle] = .noMatch := by decide
